@@ -459,6 +459,10 @@ func segmentFMP4MuxParts(
 			}
 			tfdt = box.(*amp4.Tfdt)
 
+			if tfhd == nil {
+				return nil, fmt.Errorf("tfhd box not found")
+			}
+
 			track := findInitTrack(tracks, int(tfhd.TrackID))
 			if track == nil {
 				return nil, fmt.Errorf("invalid track ID: %v", tfhd.TrackID)
@@ -475,6 +479,10 @@ func segmentFMP4MuxParts(
 				return nil, err
 			}
 			trun := box.(*amp4.Trun)
+
+			if tfdt == nil {
+				return nil, fmt.Errorf("tfdt box not found")
+			}
 
 			dataOffset := moofOffset + uint64(trun.DataOffset)
 			dts := int64(tfdt.BaseMediaDecodeTimeV1) + startDTSMP4
